@@ -239,6 +239,9 @@ class Context:
                 except OverflowError:
                     value = math.copysign(math.inf, value)
             return value
+        elif isinstance(value, bool):
+            # A boolean is stored as an integer:
+            return int(value)
         else:
             return value
 
